@@ -266,6 +266,13 @@ impl SubCheck for Sequence {
 			Some(r) => r.params(),
 			None => Params::new(text.as_deref()),
 		};
+		// ... and for a share of them they are detached from the request text first, as the server does for blocking methods
+		let params: Params<'_> = if case.outer.1 % 3 == 0 {
+			obs.class("params-made-owned");
+			params.clone().into_owned()
+		} else {
+			params
+		};
 		let r = std::panic::catch_unwind(std::panic::AssertUnwindSafe(|| {
 			let mut fails: Vec<(String, String)> = vec![];
 			let mut seq = params.sequence();
